@@ -722,3 +722,275 @@ func c03R15(ic *IC, r *Report) {
 		r.Errorf("R03.15: the implicit repetition of constant specifications was not found in the AST builder")
 	}
 }
+
+func init() {
+	ruleText["R03.17"] = "in the exact-result check no acceptance (return nil) depends on the operator: the guards of every return nil mention neither the operator token nor the node's action (the lookup of the token excepted) - every operator's exact result goes to the representability function (MinInt / -1 overflows too)"
+	ruleText["R03.18"] = "a constant folder gives its node a fresh value: every assignment to node.rval in a function of the constOp table (and their helpers) is reflect.New(T).Elem() or reflect.ValueOf(...), never an operand's rval - the operand is the value of a named constant shared by all its uses"
+	ruleText["R03.19"] = "in the unsigned case of the representability function every return that can be true is dominated by a sign or Uint64Val test of the constant: a bit-length test alone accepts negative constants (BitLen(-1) is 1)"
+}
+
+// c03R17..R03.19: round-6 seeds on the repaired constant code (D56-D58).
+func c03R17to19(ic *IC, x *c02ctx, r *Report) {
+	info := ic.Info
+	// ---- R03.17: the exact check (same role as in R03.13)
+	var repr *types.Func
+	for f, fi := range ic.G.Funcs {
+		sg := f.Type().(*types.Signature)
+		if fi.Decl.Body != nil && sg.Recv() == nil && sg.Params().Len() == 2 && sg.Results().Len() == 1 &&
+			types.TypeString(sg.Params().At(0).Type(), nil) == "go/constant.Value" && types.TypeString(sg.Params().At(1).Type(), nil) == "reflect.Type" &&
+			types.Identical(sg.Results().At(0).Type(), types.Typ[types.Bool]) {
+			repr = f
+		}
+	}
+	nExact := 0
+	for _, name := range sortedKeys(ic.F) {
+		fi := ic.F[name]
+		if fi.Decl.Body == nil || fi.Obj == nil {
+			continue
+		}
+		sg := fi.Obj.Type().(*types.Signature)
+		if sg.Results().Len() != 1 || types.TypeString(sg.Results().At(0).Type(), nil) != "error" {
+			continue
+		}
+		if len(callsIn(info, fi.Decl.Body, true, "go/constant.BinaryOp")) == 0 || len(callsIn(info, fi.Decl.Body, true, "go/constant.UnaryOp")) == 0 || len(callsIn(info, fi.Decl.Body, true, "go/constant.Shift")) == 0 {
+			continue
+		}
+		callsRepr := false
+		for _, c := range allCalls(fi.Decl.Body) {
+			if repr != nil && calleeOf(info, c) == repr {
+				callsRepr = true
+			}
+		}
+		if !callsRepr {
+			continue
+		}
+		nExact++
+		// variables of type token.Token
+		isTok := func(id *ast.Ident) bool {
+			t := info.TypeOf(id)
+			return t != nil && types.TypeString(t, nil) == "go/token.Token"
+		}
+		k := 0
+		ast.Inspect(fi.Decl.Body, func(m ast.Node) bool {
+			rs, ok := m.(*ast.ReturnStmt)
+			if !ok || len(rs.Results) != 1 {
+				return true
+			}
+			if id := identOf(rs.Results[0]); id == nil || id.Name != "nil" {
+				return true
+			}
+			k++
+			bad := ""
+			// the if conditions on the way, and the case expression when the return is the case's own
+			// statement (a case that only selects how the exact result is computed is not a guard
+			// of the acceptances nested in it)
+			var conds []ast.Expr
+			rpath := enclosingPath(fi.Decl.Body, rs)
+			for i, p := range rpath {
+				switch y := p.(type) {
+				case *ast.IfStmt:
+					conds = append(conds, y.Cond)
+				case *ast.CaseClause:
+					if i+1 < len(rpath) && rpath[i+1] == ast.Node(rs) {
+						conds = append(conds, y.List...)
+					}
+				}
+			}
+			for _, cond := range conds {
+				g := pathGuard{cond: cond}
+				ast.Inspect(g.cond, func(q ast.Node) bool {
+					switch e := q.(type) {
+					case *ast.Ident:
+						if _, isVar := info.ObjectOf(e).(*types.Var); isVar && isTok(e) {
+							bad = types.ExprString(g.cond)
+						}
+					case *ast.SelectorExpr:
+						if v := selField(info, e); v != nil && v.Name() == "action" {
+							bad = types.ExprString(g.cond)
+						}
+					}
+					return true
+				})
+			}
+			r.Check(bad == "", "R03.17", fmt.Sprintf("%s/acceptance#%d/independent-of-the-operator", name, k), ic.pos(rs.Pos()), "the acceptance does not depend on the operator",
+				name+" accepts the constant expression without computing its exact result under "+bad+", a condition on the operator: an operator assumed not to grow (quotient, remainder, bitwise) can still leave the type - int8(-128) / int8(-1) is 128 - and is then folded by wrapping machine arithmetic")
+			return true
+		})
+	}
+	if nExact == 0 {
+		r.Errorf("R03.17: the exact-result check was not found")
+	}
+	// ---- R03.18: folders assign fresh values
+	rvalFld := ic.field("node", "rval")
+	seen := map[*types.Func]bool{}
+	var folders []*types.Func
+	for _, f := range x.constOp {
+		if f != nil && !seen[f] {
+			seen[f] = true
+			folders = append(folders, f)
+		}
+	}
+	// helpers called by a folder with the node
+	for _, f := range append([]*types.Func{}, folders...) {
+		if fi := ic.G.Funcs[f]; fi != nil && fi.Decl.Body != nil {
+			for _, c := range allCalls(fi.Decl.Body) {
+				if g, ok := calleeOf(info, c).(*types.Func); ok && g.Pkg() == ic.Pk.Types && !seen[g] {
+					if gi := ic.G.Funcs[g]; gi != nil && gi.Decl.Body != nil && gi.Decl.Recv == nil {
+						sg := g.Type().(*types.Signature)
+						if sg.Params().Len() > 0 && isNamedPtr(sg.Params().At(0).Type(), "node") {
+							seen[g] = true
+							folders = append(folders, g)
+						}
+					}
+				}
+			}
+		}
+	}
+	sort.Slice(folders, func(i, j int) bool { return folders[i].Name() < folders[j].Name() })
+	nF := 0
+	for _, f := range folders {
+		fi := ic.G.Funcs[f]
+		if fi == nil || fi.Decl.Body == nil {
+			continue
+		}
+		var bad []string
+		assigns := 0
+		ast.Inspect(fi.Decl.Body, func(m ast.Node) bool {
+			as, ok := m.(*ast.AssignStmt)
+			if !ok || len(as.Lhs) != len(as.Rhs) {
+				return true
+			}
+			for i, l := range as.Lhs {
+				if selField(info, l) != rvalFld {
+					continue
+				}
+				assigns++
+				fresh := false
+				if c, ok := unparen(as.Rhs[i]).(*ast.CallExpr); ok {
+					if isCallTo(info, c, "reflect.ValueOf") || (isCallTo(info, c, "reflect.Value.Elem") && len(callsIn(info, c, true, "reflect.New")) > 0) || isCallTo(info, c, "reflect.Value.Convert") {
+						fresh = true
+					}
+				}
+				if !fresh {
+					bad = append(bad, types.ExprString(as.Rhs[i])+" at "+ic.pos(as.Pos()))
+				}
+			}
+			return true
+		})
+		if assigns == 0 {
+			continue
+		}
+		nF++
+		r.Check(len(bad) == 0, "R03.18", f.Name()+"/result-is-a-fresh-value", ic.pos(fi.Decl.Pos()), "the folder's node receives a fresh value",
+			"the constant folder "+f.Name()+" gives its node a value that is not fresh ("+strings.Join(bad, "; ")+") and then sets the result into it: when that value is an operand's rval, i.e. the value of a named constant, the constant itself is overwritten for all its other uses (const x = 5; y := -x; z := x gives z == -5)")
+	}
+	if nF < 10 {
+		r.Errorf("R03.18: only %d constant folders assigning node.rval found", nF)
+	}
+	// ---- R03.19: unsigned case rejects negatives
+	if repr != nil {
+		fi := ic.G.Funcs[repr]
+		var unsignedCase *ast.CaseClause
+		ast.Inspect(fi.Decl.Body, func(n ast.Node) bool {
+			cc, ok := n.(*ast.CaseClause)
+			if !ok {
+				return true
+			}
+			cls := map[string]bool{}
+			for _, l := range cc.List {
+				if se, ok := unparen(l).(*ast.SelectorExpr); ok {
+					if c, ok := info.Uses[se.Sel].(*types.Const); ok && c.Pkg() != nil && c.Pkg().Path() == "reflect" {
+						cls[kindClass[c.Name()]] = true
+					}
+				}
+			}
+			if len(cls) == 1 && cls["uint"] {
+				unsignedCase = cc
+			}
+			return true
+		})
+		if unsignedCase == nil {
+			r.Errorf("R03.19: the unsigned case of the representability function was not found")
+			return
+		}
+		// the code executed for unsigned kinds: the case body and what follows the kind switch in the
+		// enclosing clause; every return not the constant false must come after a sign test
+		signTests := callsIn(info, unsignedCase, true, "go/constant.Uint64Val", "go/constant.Sign")
+		// enclosing statement list after the inner switch
+		var region []ast.Node
+		region = append(region, unsignedCase)
+		path := enclosingPath(fi.Decl.Body, unsignedCase)
+		for i := len(path) - 1; i > 0; i-- {
+			if sw, ok := path[i].(*ast.SwitchStmt); ok {
+				if outer, ok := path[i-1].(*ast.CaseClause); ok {
+					after := false
+					for _, s := range outer.Body {
+						if after {
+							region = append(region, s)
+						}
+						if s == ast.Stmt(sw) {
+							after = true
+						}
+					}
+				}
+				break
+			}
+		}
+		var bad []string
+		for _, reg := range region {
+			ast.Inspect(reg, func(m ast.Node) bool {
+				rs, ok := m.(*ast.ReturnStmt)
+				if !ok || len(rs.Results) != 1 {
+					return true
+				}
+				if id := identOf(rs.Results[0]); id != nil && id.Name == "false" {
+					return true
+				}
+				// a sign test before, on the way: position-wise earlier in the unsigned case with an
+				// early `return false`, or the returned expression is the test's own result
+				okSign := false
+				for _, st := range signTests {
+					if st.Pos() < rs.Pos() {
+						// the test guards an early return false or its ok result is what is returned
+						for _, p := range enclosingPath(unsignedCase, st) {
+							if ifs, isIf := p.(*ast.IfStmt); isIf && len(ifs.Body.List) > 0 {
+								if r2, isRet := ifs.Body.List[len(ifs.Body.List)-1].(*ast.ReturnStmt); isRet && len(r2.Results) == 1 {
+									if id := identOf(r2.Results[0]); id != nil && id.Name == "false" && ifs.End() <= rs.Pos() {
+										// the early exit must not itself be under a narrower condition
+										guards := pathGuards(unsignedCase, ifs)
+										if len(guards) == 0 {
+											okSign = true
+										}
+									}
+								}
+							}
+						}
+					}
+				}
+				if len(callsIn(info, rs, true, "go/constant.Sign")) > 0 {
+					okSign = true
+				}
+				if id := identOf(rs.Results[0]); id != nil && !okSign {
+					// `_, ok := constant.Uint64Val(x); return ok`
+					obj := info.ObjectOf(id)
+					ast.Inspect(unsignedCase, func(q ast.Node) bool {
+						if as, isAs := q.(*ast.AssignStmt); isAs && len(as.Lhs) == 2 && len(as.Rhs) == 1 {
+							if l := identOf(as.Lhs[1]); l != nil && info.ObjectOf(l) == obj {
+								if c, isC := unparen(as.Rhs[0]).(*ast.CallExpr); isC && isCallTo(info, c, "go/constant.Uint64Val") {
+									okSign = true
+								}
+							}
+						}
+						return true
+					})
+				}
+				if !okSign {
+					bad = append(bad, "return "+types.ExprString(rs.Results[0])+" at "+ic.pos(rs.Pos()))
+				}
+				return true
+			})
+		}
+		r.Check(len(bad) == 0, "R03.19", funcName(fi.Decl)+"/unsigned/negative-constants-rejected", ic.pos(unsignedCase.Pos()), "every accepting return of the unsigned case follows a sign test",
+			"in the unsigned case of "+funcName(fi.Decl)+" "+strings.Join(bad, "; ")+" can accept the constant without a sign (or Uint64Val) test on the way: the bit length of a negative number is that of its magnitude, so uint8(-1) is accepted (and evaluates to 255) instead of being rejected")
+	}
+}
